@@ -1,4 +1,6 @@
 import Preflate.Props.C10
 #print axioms Preflate.decode_encode
+#print axioms Preflate.vp8_lossless
+#print axioms Preflate.bytes_roundtrip
 #print axioms Preflate.default_count_le_one
 #print axioms Preflate.contexts_match_source
